@@ -10,9 +10,9 @@ git apply $m/patch.diff || { echo "patch does not apply"; exit 3; }
 suite=$(go test -mod=mod -vet=off -count=1 $(go list ./... | grep -v /result) 2>&1 | grep -v "no test files"); if echo "$suite" | grep -q "^FAIL\|^---  FAIL\|^--- FAIL"; then echo "SUITE NOT GREEN"; echo "$suite" | tail -5; git checkout -q -- .; exit 4; fi
 cp $m/demo_test.go $pkg/zz_seed_demo_test.go
 with=$(cd $pkg && go test -mod=mod -vet=off -count=1 -timeout 120s -run . ./ 2>&1 | tail -15); rcw=$?
-(cd $pkg && go test -mod=mod -vet=off -count=1 -timeout 120s ./ >/tmp/seed_with.log 2>&1); rcw=$?
+(cd $pkg && go test $RACEFLAG -mod=mod -vet=off -count=1 -timeout 300s ./ >/tmp/seed_with.log 2>&1); rcw=$?
 git checkout -q -- .
-(cd $pkg && go test -mod=mod -vet=off -count=1 -timeout 120s ./ >/tmp/seed_without.log 2>&1); rco=$?
+(cd $pkg && go test $RACEFLAG -mod=mod -vet=off -count=1 -timeout 300s ./ >/tmp/seed_without.log 2>&1); rco=$?
 rm -f $pkg/zz_seed_demo_test.go
 echo "suite green with change: yes; demo with change exit=$rcw; demo without change exit=$rco"
 if [ $rcw -ne 0 ] && [ $rco -eq 0 ]; then
